@@ -206,13 +206,28 @@ End One.
      H5  (only for the poller before the fix of F-15, readd = true) no HUP is delivered to a
          channel whose interest is empty;
      H6  a TcpClient is destroyed on its loop thread (CliDestroy), not on a foreign thread
-         (XBegin _ _ ADtor; XStore; XEnq) (finding F-13, recorded by C12/C08).
+         (XBegin _ _ ADtor; XStore; XEnq) (finding F-13, recorded by C12/C08);
+     H7  when ~TcpServer runs no io loop is inside a drain, i.e. every io thread is in poll() /
+         dispatching events and not between the swap of doPendingFunctors and its next evaluation
+         of `while (!quit_)` (io_idle: q_batch = [], q_spent = [], callingPendingFunctors_ = false
+         for every loop 1..nio).  ~TcpServer hands connectDestroyed to the io loops and then
+         destroys threadPool_: ~EventLoopThread stores quit_ and joins; EventLoop::loop() has no
+         drain after its while loop, so a hand-off that lands behind a running batch is destroyed
+         unrun with the EventLoop (C02_server_destroy_drops_queued_destroy_refuted);
+     H8  no user reference to, and no foreign call on, a live connection of an io loop is
+         outstanding when that loop leaves loop(), and no foreign call enqueues on a loop that is
+         gone (a TcpConnection must not outlive its EventLoop: residue R-3, the model does not
+         represent the storage of an EventLoop).
+   The pool's tear-down in the model: s_stop = j >= 1 means io loops 1..j-1 are gone, io loop j
+   has quit_ set; EndBatch of a quitting loop is its exit (its queue is dropped, the dropped
+   functors' references die on that thread, the next loop is told to quit).  Not modelled: the
+   base thread is blocked in join() meanwhile (the model lets it run: more schedules, not fewer).
    Each hypothesis is needed: the _refuted theorems below give the op list that fails without
    it, and corpus/C02/sys replays each of them on the real code.
    ============================================================================================ *)
 From Muduo Require Import C02_Model C02_SysProofs C02_SysCount C02_GenTie Gen_C02 Conn_Race C02_Link C02_LinkSys.
 
-(* ---- no assertion fails, no destroyed object is used: every op list, every number of loops --- *)
+(* ---- no assertion fails, no destroyed object is used: every op list accepted under H1-H8, every number of loops --- *)
 Theorem C02_sys_no_assert_reachable_partial : forall nio readd ops, run true (init_sys nio readd) ops <> Fault.
 Proof. exact S02_no_fault. Qed.
 Print Assumptions C02_sys_no_assert_reachable_partial.
@@ -258,24 +273,25 @@ Theorem C02_cnt_def : forall c o,
 Proof. intros c o. split; reflexivity. Qed.
 Print Assumptions C02_cnt_def.
 
-(* ---- destroyed at most once, close(fd) exactly then, and only when Disconnected, removed
+(* ---- (sreach = reached by ops accepted under H1-H8, hence _partial) destroyed at most once, close(fd) exactly then, and only when Disconnected, removed
    from its loop (Channel::remove ran, i.e. after the queued connectDestroyed) and not in the
    epoll set; while it lives it has a holder, and the holders are exactly the owner's entry,
    the user references, the foreign calls in progress and the strong functors --------------- *)
-Theorem C02_destroyed_once_after_unregister : forall s c k, sreach s -> getc s c = Some k ->
+Theorem C02_destroyed_once_after_unregister_partial : forall s c k, sreach s -> getc s c = Some k ->
   k_dtors k <= 1 /\ k_closes k = k_dtors k /\ (k_dtors k = 1 <-> k_alive k = false) /\
   (k_alive k = false -> k_st k = Disconnected /\ k_added k = false /\ k_inset k = false /\ holders s c = 0) /\
   (k_alive k = true -> 1 <= holders s c) /\
   (k_alive k = true -> holders s c = (if k_mapped k then 1 else 0) + k_urefs k + count_calls c (s_calls s) + allN (holds c) s).
 Proof. exact S02_destroyed_once. Qed.
-Print Assumptions C02_destroyed_once_after_unregister.
+Print Assumptions C02_destroyed_once_after_unregister_partial.
 
-(* ---- no leak ---------------------------------------------------------------------------------- *)
-Theorem C02_no_leak : forall s, sreach s -> quiescent s -> forall c k, getc s c = Some k ->
+(* ---- no leak, in every quiescent state reached under H1-H8 (with server destruction as a close cause: the io loops
+   wind down as in the code, and under H7 every hand-off runs before its loop leaves) ------------------------------ *)
+Theorem C02_no_leak_partial : forall s, sreach s -> quiescent s -> forall c k, getc s c = Some k ->
   (k_alive k = true /\ k_mapped k = true /\ up_k k /\ owner_alive s c k) \/
   (k_alive k = false /\ k_dtors k = 1 /\ k_closes k = 1 /\ k_st k = Disconnected /\ k_added k = false /\ k_inset k = false).
 Proof. exact S02_no_leak. Qed.
-Print Assumptions C02_no_leak.
+Print Assumptions C02_no_leak_partial.
 
 Theorem C02_quiescent_def : forall s, quiescent s <->
   (forall l v, getl s l = Some v -> q_all v = []) /\ s_calls s = [] /\ (forall c k, getc s c = Some k -> k_urefs k = 0).
@@ -283,12 +299,56 @@ Proof. intros s. reflexivity. Qed.
 Print Assumptions C02_quiescent_def.
 
 (* ---- since the fix of F-15 a descriptor in the epoll set always has interest (H5 is vacuous) -- *)
-Theorem C02_registered_has_interest : forall s c k, sreach s -> s_readd s = false -> getc s c = Some k ->
+Theorem C02_registered_has_interest_partial : forall s c k, sreach s -> s_readd s = false -> getc s c = Some k ->
   k_alive k = true -> k_inset k = true -> k_wr k = true \/ k_rd k = true.
 Proof. exact S02_inset_has_interest. Qed.
-Print Assumptions C02_registered_has_interest.
+Print Assumptions C02_registered_has_interest_partial.
+
+(* ---- server destruction with io threads: when an io loop leaves loop() (the exit step of the pool's tear-down) every
+   connection that was assigned to it has been destroyed - by C02_destroyed_once_after_unregister_partial Disconnected,
+   removed from the poller, closed once, and by C02_sys_up_down_once_partial with exactly one DOWN after its UP ------- *)
+Theorem C02_pool_exit_destroys_partial : forall s l s' obs, sreach s -> quitting s l = true -> step true s (EndBatch l) = Ok (s', obs) ->
+  s_stop s' = S l /\ forall c k', getc s' c = Some k' -> k_loop k' = l -> k_alive k' = false.
+Proof. exact S02_pool_exit_destroys. Qed.
+Print Assumptions C02_pool_exit_destroys_partial.
+
+Theorem C02_pool_def : forall s l, (quitting s l = (negb (l =? 0) && (l =? s_stop s))) /\ (gone s l = (negb (l =? 0) && (l <? s_stop s))) /\
+  io_idle s = forallb q_idle (tl (s_loops s)) /\
+  (forall v, q_idle v = match q_batch v, q_spent v with [], [] => negb (q_drain v) | _, _ => false end).
+Proof. intros s l. repeat split. Qed.
+Print Assumptions C02_pool_def.
+
+(* H7 is exactly what the hypotheses add to ~TcpServer besides H2 *)
+Theorem C02_H7_is_the_guard : forall s, s_srv s = true -> has_task is_remove s = false -> has_task is_force s = false ->
+  (io_idle s = false -> step true s SrvDestroy = Rejected) /\ (io_idle s = true -> step true s SrvDestroy = step false s SrvDestroy).
+Proof. exact S02_H7_guard. Qed.
+Print Assumptions C02_H7_is_the_guard.
 
 (* ---- what fails outside the hypotheses (all replayed on the real code) ----------------------- *)
+(* H7: candidate finding, ~TcpServer while an io loop is inside a drain: the queued connectDestroyed is destroyed unrun with
+   the EventLoop, ~TcpConnection runs while kConnected (a: the io thread is in a write-complete callback, b: in front of the
+   connectEstablished of a connection accepted just before, c: inside a drain of an empty batch) *)
+Theorem C02_server_destroy_drops_queued_destroy_refuted :
+  run false (init_sys 1 false) w_pool_a = Fault /\ run false (init_sys 1 false) w_pool_b = Fault /\ run false (init_sys 1 false) w_pool_c = Fault /\
+  run true (init_sys 1 false) w_pool_a = Rejected /\ run true (init_sys 1 false) w_pool_b = Rejected /\ run true (init_sys 1 false) w_pool_c = Rejected /\
+  (exists s o k v, run false (init_sys 1 false) (firstn 8 w_pool_a) = Ok (s, o) /\ o = [OUp 1 0] /\ getc s 0 = Some k /\ k_st k = Connected /\
+     k_alive k = true /\ holders s 0 = 2 /\ getl s 1 = Some v /\ q_pend v = [TDestroy 0] /\ q_batch v = [] /\ q_drain v = true /\ s_stop s = 1 /\
+     step false s (EndBatch 1) = Fault) /\
+  (exists s o, run true (init_sys 1 false) (firstn 6 w_pool_a) = Ok (s, o) /\ has_task is_remove s = false /\ has_task is_force s = false /\
+     io_idle s = false /\ step true s SrvDestroy = Rejected) /\
+  (exists s o, run true (init_sys 1 false)
+     [Accept; Swap 1; Run 1 true true; EndBatch 1; LSend 0 true true; Swap 1; Run 1 true true; EndBatch 1; SrvDestroy; Swap 1; Run 1 true true; EndBatch 1] = Ok (s, o) /\
+     o = [OUp 1 0; ODown 1 0; ODtor 1 0 true] /\ s_stop s = 2).
+Proof. exact W_pool. Qed.
+Print Assumptions C02_server_destroy_drops_queued_destroy_refuted.
+
+Theorem C02_pool_witness_def :
+  w_pool_a = [Accept; Swap 1; Run 1 true true; EndBatch 1; LSend 0 true true; Swap 1; SrvDestroy; Run 1 true true; EndBatch 1] /\
+  w_pool_b = [Accept; Swap 1; SrvDestroy; Run 1 true true; EndBatch 1] /\
+  w_pool_c = [Accept; Swap 1; Run 1 true true; EndBatch 1; Swap 1; SrvDestroy; EndBatch 1].
+Proof. repeat split. Qed.
+Print Assumptions C02_pool_witness_def.
+
 (* H2: residue R-1, ~TcpServer with a hop or a forced close in flight: use of the freed server *)
 Theorem C02_server_lifetime_refuted : run false (init_sys 1 false) w_server_lifetime = Fault /\
   run false (init_sys 1 false) w_server_lifetime2 = Fault /\
@@ -334,10 +394,10 @@ Print Assumptions C02_client_foreign_dtor_refuted.
    ============================================================================================ *)
 (* every step of the owners model moves every connection's view along a path of L and emits, for
    that connection, exactly the callbacks of the path *)
-Theorem C02_sys_projects_to_L : forall s o s' obs, sreach s -> step true s o = Ok (s', obs) ->
+Theorem C02_sys_projects_to_L_partial : forall s o s' obs, sreach s -> step true s o = Ok (s', obs) ->
   forall c, lpath (viewof s c) (proj c obs) (viewof s' c).
 Proof. exact S02_projects_to_L. Qed.
-Print Assumptions C02_sys_projects_to_L.
+Print Assumptions C02_sys_projects_to_L_partial.
 
 (* every L step from a valid view is one Conn_Model step: from a Conn_Model state that satisfies the
    invariant of Conn_Proofs and has this view, to a state with the next view, with the same callbacks *)
@@ -348,15 +408,15 @@ Proof. exact l_realised_view. Qed.
 Print Assumptions C02_L_realised_by_Conn.
 
 (* composed: one step, and a whole run from the initial state *)
-Theorem C02_sys_projects_to_Conn : forall s o s' obs, sreach s -> step true s o = Ok (s', obs) ->
+Theorem C02_sys_projects_to_Conn_partial : forall s o s' obs, sreach s -> step true s o = Ok (s', obs) ->
   forall c, conn_path (viewof s c) (proj c obs) (viewof s' c).
 Proof. exact S02_projects_to_Conn. Qed.
-Print Assumptions C02_sys_projects_to_Conn.
+Print Assumptions C02_sys_projects_to_Conn_partial.
 
-Theorem C02_sys_run_projects_to_Conn : forall nio readd ops s obs, run true (init_sys nio readd) ops = Ok (s, obs) ->
+Theorem C02_sys_run_projects_to_Conn_partial : forall nio readd ops s obs, run true (init_sys nio readd) ops = Ok (s, obs) ->
   forall c, conn_path vinit (proj c obs) (viewof s c).
 Proof. exact S02_run_projects_to_Conn. Qed.
-Print Assumptions C02_sys_run_projects_to_Conn.
+Print Assumptions C02_sys_run_projects_to_Conn_partial.
 
 Theorem C02_proj_def : forall c x, projx c x =
   match x with OUp _ c' => if c' =? c then [LUp] else [] | ODown _ c' => if c' =? c then [LDown] else []
@@ -397,10 +457,11 @@ Print Assumptions C02_gen_tie.
 
 (* ---- non-vacuity: three connections on three loops, a server, a client, a foreign shutdown in
    its micro-steps, a user reference, server and client destruction; every op accepted under
-   the hypotheses; the end state is quiescent (so C02_no_leak applies to a reached state) ----- *)
+   the hypotheses (H7: the io loops are in poll() when SrvDestroy runs; then both io loops take their last drain and leave:
+   s_stop = 3); the end state is quiescent (so C02_no_leak_partial applies to a reached state) ----- *)
 Example ex_owners_run : exists s o, run true (init_sys 2 false) ex_sys_ops = Ok (s, o) /\
   o = [OUp 0 2; OUp 1 0; OMsg 1 0; ODown 1 0; ODtor 100 0 true; OUp 2 1; ODown 2 1; ODtor 2 1 true; ODown 0 2; ODtor 0 2 true] /\
-  (forall l v, getl s l = Some v -> q_all v = []) /\ s_calls s = [].
+  (forall l v, getl s l = Some v -> q_all v = []) /\ s_calls s = [] /\ s_stop s = 3.
 Proof. exact ex_sys_run. Qed.
 
 (* non-vacuity of the link: in the run above connection 0 goes UP, gets a message and goes DOWN, and these
